@@ -31,7 +31,9 @@ def scenarios(tier):
         for cont in (False, True):
             if q and adv != "EF" and cont:
                 continue
-            out.append(dict(name=f"e2e-{adv}-{'cont' if cont else 'disc'}", fn="e2e", params=dict(adv=adv, cont=cont, nsteps=4 if q else 5), cost=20))
+            out.append(dict(name=f"e2e-{adv}-{'cont' if cont else 'disc'}", fn="e2e", params=dict(adv=adv, cont=cont, nsteps=4 if q else 5, off=(250 if adv == "RK2" else 0)), cost=20))
+            if adv == "EF" and not cont:
+                out.append(dict(name="e2e-EF-disc-offgrid", fn="e2e", params=dict(adv=adv, cont=cont, nsteps=4 if q else 5, off=599), cost=20))
     for part in ((3,), (2, 1), (1, 2), (1, 1, 1)):
         out.append(dict(name=f"forcing-mirror-{'_'.join(map(str, part))}", fn="fmirror", params=dict(part=list(part)), cost=5))
     return out
@@ -63,7 +65,7 @@ def _forcing_files(W, d, S, rev):
 
 def _run(W, d, S, rev, rows, p, per):
     sgn = -1 if rev else 1
-    W.table(d / "r.rls", ["release_time", "X", "Y", "Z"], [[W.dt(S + sgn * s * DT), x, y, z] for (s, x, y, z) in rows])
+    W.table(d / "r.rls", ["release_time", "X", "Y", "Z"], [[W.dt(S + sgn * (s * DT + off)), x, y, z] for (s, x, y, z, off) in rows])
     ivars = dict(pid=ovar("i4"), X=ovar("f8"), Y=ovar("f8"), Z=ovar("f8"), temp=ovar("f8"))
     cfg = base_config(W, start=S, stop=S + sgn * p["nsteps"] * DT, dt=DT, rev=rev, release_file=d / "r.rls", advection=p["adv"],
                       state=dict(instance_variables=dict(temp=float), default_values=dict(temp=0)),
@@ -83,7 +85,10 @@ def e2e(W, p):
     r1 = W.idx(W.int("release_step", 1, p["nsteps"] - 1))
     per = W.idx(W.int("period", 1, 2))
     za, zb = W.real("za", 0, 99), W.real("zb", 0, 99)
-    rows = [(0, W.frac(11, 4), 3, za), (r1, W.frac(13, 5), W.frac(5, 2), zb)]
+    # the second row need not lie on the model's time grid: off seconds (simulation direction) after step r1; it is released at step r1
+    # (concrete offsets: pandas hashes the release times, a symbolic one would be enumerated second by second)
+    off = p.get("off", 0) if not p["cont"] else 0
+    rows = [(0, W.frac(11, 4), 3, za, 0), (r1, W.frac(13, 5), W.frac(5, 2), zb, off)]
     if p["cont"] and p.get("onerow"):
         rows = rows[:1]
     _forcing_files(W, tmp / "R", S, True)
